@@ -16,6 +16,22 @@ REPO = os.environ.get("PVC_REPO", "/repo")
 _cache = {}
 
 
+def build_defines():
+    """-D flags the real build applies to the C sources (target_compile_definitions in CMakeLists.txt,
+    Release configuration); the verified AST and the replay shared objects use the same ones."""
+    out = []
+    try:
+        with open(os.path.join(REPO, "CMakeLists.txt")) as f:
+            txt = f.read()
+    except OSError:
+        return out
+    for m in re.finditer(r"target_compile_definitions\s*\(\s*\w+\s+(?:PRIVATE|PUBLIC|INTERFACE)\s+([^)]*)\)", txt):
+        for d in m.group(1).split():
+            if d not in out:
+                out.append(d)
+    return out
+
+
 class CFile:
     def __init__(self, relpath, openmp=True):
         self.relpath = relpath
@@ -26,6 +42,8 @@ class CFile:
         if openmp:
             cmd.append("-fopenmp")
         cmd += ["-I" + os.path.join(REPO, "c")]
+        self.defines = build_defines()
+        cmd += ["-D" + d for d in self.defines]
         if openmp:
             # clang 14 has no omp.h here and cannot parse gcc 12's: a stub declaring the omp_* API is used
             cmd += ["-idirafter", os.path.join(os.path.dirname(os.path.abspath(__file__)), "stubs")]
